@@ -322,12 +322,35 @@ func (e *c20Env) script() error {
 	switch e.kind {
 	case "blocks":
 		return e.deliver(6, 3)
-	case "import", "longimport":
+	case "import", "longimport", "import-retry":
+		if e.kind == "import-retry" {
+			// the first rescan round fails inside its suspended section (the node database refuses one
+			// call): the worker must give the follower back and try again
+			var once sync.Once
+			e.n.Wrap.SetHook(func(method string) error {
+				var err error
+				if method == "FetchScriptHashRelatedTx" {
+					once.Do(func() { err = sim.ErrInjected })
+				}
+				return err
+			})
+		}
 		if err := e.importB(); err != nil {
 			return err
 		}
 		return e.deliver(3, -1)
-	case "remove", "bigremove":
+	case "remove", "bigremove", "remove-retry":
+		if e.kind == "remove-retry" {
+			// one commit of the removal fails: the round is repeated
+			var once sync.Once
+			e.w.DB.SetHook(func(ev *sim.Event) error {
+				var err error
+				if ev.Kind == "commit" && ev.Role == "remove" {
+					once.Do(func() { err = sim.ErrInjected })
+				}
+				return err
+			})
+		}
 		if err := e.removeA(); err != nil {
 			return err
 		}
@@ -694,7 +717,7 @@ func init() {
 	core.Register(&core.Property{
 		ID:    "C20",
 		Level: "exploration",
-		Rule: "case = one scenario (queued blocks incl. a reorg / import of a wallet with history while blocks arrive / removal while blocks and a reorg arrive / import and removal queued together; thorough adds a >1000-block two-batch import and a >20 000-credit multi-round removal) or a batch of random stops. " +
+		Rule: "case = one scenario (queued blocks incl. a reorg / import of a wallet with history while blocks arrive / removal while blocks and a reorg arrive / import and removal queued together / an import whose first rescan round fails (node database error) and is retried / a removal one of whose commits fails and is retried; thorough adds a >1000-block two-batch import and a >20 000-credit multi-round removal) or a batch of random stops. " +
 			"A dry run counts the passes of the 11 yield points of follower and worker; for every (point, occurrence) [quick: ≤8 occurrences per point] the goroutine is parked there and (A) Stop is issued and the goroutine released once Stop has closed quit, (B) released 3 ms later, (H, odd occurrences) released without a stop after all blocks are queued. " +
 			"Oracles: Stop returns — watchdog 25 s, its expiry is a violation only with two identical goroutine dumps in which every wallet goroutine is blocked in a channel/lock/wait-group operation, otherwise inconclusive; the database can be re-opened in-process; no goroutine died; after restart (H: without) SyncedTo reaches the node's tip, the import is ready and the removed wallet gone. " +
 			"Random stops: Stop after a PRNG-chosen number of point passes with 0–1.5 ms delays at 35 % of the passes, GOMAXPROCS ∈ {1,2,4,16}. distinct_nontrivial = distinct (scenario, point, occurrence, variant) actually parked + distinct random stops",
@@ -717,12 +740,16 @@ func init() {
 			switch {
 			case t.Index < 4:
 				c20Placements(t, c20Kinds[t.Index], max)
-			case !quick && t.Index == 4:
+			case t.Index == 4:
+				c20Placements(t, "import-retry", max)
+			case t.Index == 6:
+				c20Placements(t, "remove-retry", max)
+			case !quick && t.Index == 7:
 				c20Placements(t, "longimport", 6)
-			case !quick && t.Index == 6:
+			case !quick && t.Index == 8:
 				c20Placements(t, "bigremove", 6)
-			case !quick && t.Index >= 8 && t.Index < 12:
-				c20Placements(t, c20Kinds[t.Index-8], max)
+			case !quick && t.Index >= 9 && t.Index < 13:
+				c20Placements(t, c20Kinds[t.Index-9], max)
 			default:
 				n := 12
 				if !quick {
